@@ -92,7 +92,13 @@ func (v *Vue) renderNodesWithContext(ctx VueContext, w io.Writer, nodes []*html.
 
 	// Identify v-once elements on this render's private copy (never on the
 	// shared, cached DOM), for every entry point: file, fragment and string.
-	assignSeenAttrs(oncePagePrefix+ctx.FromFilename, nodeCopy)
+	// A file gets the IDs evalInclude gives it, so that a template which includes itself
+	// (a tree) meets the same elements at the entry level and in the includes.
+	onceNamespace := oncePagePrefix + ctx.FromFilename
+	if ctx.fromFile {
+		onceNamespace = ctx.FromFilename
+	}
+	assignSeenAttrs(onceNamespace, nodeCopy)
 
 	if err := v.preProcessNodes(ctx, nodeCopy); err != nil {
 		return err
@@ -161,6 +167,8 @@ func (v *Vue) Render(w io.Writer, filename string, data any) error {
 		Stack:      NewStackWithData(dataMap, data),
 		Processors: v.nodeProcessors,
 	})
+
+	vueCtx.fromFile = true
 
 	// Use renderNodesWithContext with pre-configured context
 	return v.renderNodesWithContext(vueCtx, w, dom)
@@ -238,9 +246,10 @@ func (v *Vue) forgetTemplate(filename string) {
 	v.templateMu.Unlock()
 }
 
-// Namespaces of v-once IDs. A component's elements are identified by the component's file
-// name; the top-level template of a render and the page's named slots handed to a layout
-// get prefixes that no file name can start with, so the three kinds never collide.
+// Namespaces of v-once IDs. The elements of a file - a component, or the file a render
+// starts from - are identified by the file's name; a top-level template that is not a
+// file (a string, a node list) and the page's named slots handed to a layout get prefixes
+// that no file name can start with, so the three kinds never collide.
 const (
 	oncePagePrefix = "\x00page:"
 	onceSlotPrefix = "\x00slots:"
@@ -291,6 +300,8 @@ func (v *Vue) RenderFragment(w io.Writer, filename string, data any) error {
 		Stack:      NewStackWithData(dataMap, data),
 		Processors: v.nodeProcessors,
 	})
+
+	vueCtx.fromFile = true
 
 	// Use RenderNodes with pre-configured context
 	return v.renderNodesWithContext(vueCtx, w, dom)
